@@ -1,2 +1,236 @@
+//! C01 (linear systems), C11 (factorisations), C14 (polynomial regression), C07 (quadrature), C06 (GLM).
 use crate::*;
-pub fn run(_r: &mut Rng, _o: &mut Fails) {}
+use compute::prelude::*;
+use compute::linalg::*;
+use compute::integrate::*;
+use compute::predict::*;
+
+fn matvec(a: &[f64], x: &[f64], n: usize) -> Vec<f64> { (0..n).map(|i| (0..n).map(|j| a[i * n + j] * x[j]).sum()).collect() }
+fn norm_inf(a: &[f64]) -> f64 { a.iter().fold(0.0, |m, v| m.max(v.abs())) }
+fn spd(rng: &mut Rng, n: usize) -> Vec<f64> { let b = rng.vec(n * n, -1., 1.); let mut s = vec![0.; n * n]; for i in 0..n { for j in 0..n { let mut t = if i == j { 1. } else { 0. }; for k in 0..n { t += b[i * n + k] * b[j * n + k]; } s[i * n + j] = t; } } for i in 0..n { for j in 0..i { s[i * n + j] = s[j * n + i]; } } s }
+fn indefinite(rng: &mut Rng, n: usize) -> Vec<f64> { let mut s = vec![0.; n * n]; for i in 0..n { for j in 0..=i { let v = if i == j { 1.0 } else { 2.0 + rng.unit() }; s[i * n + j] = v; s[j * n + i] = v; } } s }
+fn det_int(a: &[f64], n: usize) -> f64 {
+    // exact determinant of a small integer matrix by cofactor expansion
+    if n == 1 { return a[0]; }
+    let mut d = 0.0;
+    for c in 0..n { let mut m = Vec::with_capacity((n - 1) * (n - 1)); for i in 1..n { for j in 0..n { if j != c { m.push(a[i * n + j]); } } } d += if c % 2 == 0 { 1. } else { -1. } * a[c] * det_int(&m, n - 1); }
+    d
+}
+
+fn c01(rng: &mut Rng, out: &mut Fails) {
+    for case in 0..150 {
+        let n = 1 + rng.below(7);
+        let kind = case % 6;
+        let a: Vec<f64> = match kind { 0 => rng.vec(n * n, -2., 2.), 1 => spd(rng, n), 2 => indefinite(rng, n),
+            3 => { let mut a = rng.ivec(n * n, -3, 3); for i in 0..n { a[i * n + i] += 12.; } a }
+            4 => { let mut a = vec![0.; n * n]; let mut p: Vec<usize> = (0..n).collect(); for i in (1..n).rev() { p.swap(i, rng.below(i + 1)); } for i in 0..n { a[i * n + p[i]] = 1. + i as f64; } a }
+            _ => { let mut a = rng.vec(n * n, -1., 1.); for i in 0..n { a[i * n + i] = if i % 2 == 0 { 1e-9 } else { 1.0 }; } if n > 1 { a[n] = 1.0; } a } };
+        if n == 2 && kind == 2 { /* [[1,2+],[2+,1]] */ }
+        let xt = rng.ivec(n, -4, 4);
+        let b = matvec(&a, &xt, n);
+        let na = norm_inf(&a); let inp = format!("kind {} n={} A={:?} b={:?}", kind, n, a, b);
+        let check = |out: &mut Fails, f: &str, x: Option<Vec<f64>>| match x {
+            None => fail(out, f, "C01.no_panic", inp.clone(), "panic".into(), format!("x ~ {:?}", xt)),
+            Some(x) => { let r = matvec(&a, &x, n); let res = r.iter().zip(&b).fold(0.0f64, |m, (u, v)| m.max((u - v).abs()));
+                let scale = na * norm_inf(&x) * n as f64 + norm_inf(&b) + 1e-300;
+                if !(res.is_finite()) || res > 1e-8 * scale * if kind == 5 { 1e3 } else { 1.0 } { fail(out, f, "C01.residual", inp.clone(), format!("x={:?} residual {}", x, res), format!("residual <= c*eps*({})", scale)); } } };
+        check(out, "solve", catch(|| solve(&a, &b)));
+        check(out, "solve_sys", catch(|| solve_sys(&a, &b)));
+        let ma = Matrix::new(a.clone(), n as i32, n as i32);
+        check(out, "Matrix::solve(Vector)", catch(|| ma.solve(&Vector::new(b.clone())).v));
+        check(out, "invert_matrix", catch(|| { let inv = invert_matrix(&a); matvec(&inv, &b, n) }));
+        check(out, "Matrix::inv", catch(|| { let inv = ma.inv(); matvec(&inv.data.v, &b, n) }));
+        // several right-hand sides: column c of the answer solves column c
+        let nrhs = 1 + rng.below(3);
+        let xs: Vec<Vec<f64>> = (0..nrhs).map(|_| rng.ivec(n, -3, 3)).collect();
+        let mut bm = vec![0.; n * nrhs];
+        for c in 0..nrhs { let bc = matvec(&a, &xs[c], n); for i in 0..n { bm[i * nrhs + c] = bc[i]; } }
+        for which in 0..2 {
+            let f = if which == 0 { "solve_sys (multi-RHS)" } else { "Matrix::solve(Matrix)" };
+            let sol = catch(|| if which == 0 { solve_sys(&a, &bm) } else { ma.solve(&Matrix::new(bm.clone(), n as i32, nrhs as i32)).data.v });
+            match sol { None => fail(out, f, "C01.multirhs.no_panic", inp.clone(), "panic".into(), "solution".into()),
+                Some(s) => for c in 0..nrhs { let xc: Vec<f64> = (0..n).map(|i| s[i * nrhs + c]).collect(); let r = matvec(&a, &xc, n);
+                    let res = (0..n).fold(0.0f64, |m, i| m.max((r[i] - bm[i * nrhs + c]).abs()));
+                    let scale = na * norm_inf(&xc) * n as f64 + norm_inf(&bm) + 1e-300;
+                    if !(res.is_finite()) || res > 1e-8 * scale * if kind == 5 { 1e3 } else { 1.0 } { fail(out, f, "C01.multirhs.column", format!("{} rhs column {}", inp, c), format!("residual {}", res), "small".into()); break; } } }
+        }
+        if out.len() > 6 { return; }
+    }
+}
+
+fn c11(rng: &mut Rng, out: &mut Fails) {
+    for case in 0..120 {
+        let n = 1 + rng.below(6);
+        // Cholesky on SPD
+        let a = spd(rng, n);
+        let inp = format!("SPD n={} A={:?}", n, a);
+        for which in 0..2 {
+            let f = if which == 0 { "cholesky" } else { "Matrix::cholesky" };
+            let l = catch(|| if which == 0 { cholesky(&a) } else { Matrix::new(a.clone(), n as i32, n as i32).cholesky().data.v });
+            match l { None => fail(out, f, "C11.chol.no_panic", inp.clone(), "panic".into(), "factor".into()),
+                Some(l) => { for i in 0..n { if !(l[i * n + i] > 0.) { fail(out, f, "C11.chol.diag_positive", inp.clone(), format!("{}", l[i * n + i]), "> 0".into()); } for j in i + 1..n { if l[i * n + j] != 0. { fail(out, f, "C11.chol.lower", inp.clone(), format!("l[{},{}]={}", i, j, l[i * n + j]), "0".into()); } } }
+                    for i in 0..n { for j in 0..n { let s: f64 = (0..n).map(|k| l[i * n + k] * l[j * n + k]).sum(); if !close(s, a[i * n + j], 1e-10) { fail(out, f, "C11.chol.reconstruct", format!("{} entry ({},{})", inp, i, j), format!("{}", s), format!("{}", a[i * n + j])); } } } } }
+        }
+        // non-PD rejected
+        if n >= 2 { let b = indefinite(rng, n);
+            for which in 0..2 { let f = if which == 0 { "cholesky" } else { "Matrix::cholesky" };
+                let r = catch(|| if which == 0 { cholesky(&b) } else { Matrix::new(b.clone(), n as i32, n as i32).cholesky().data.v });
+                if let Some(l) = r { fail(out, f, "C11.chol.reject_non_pd", format!("indefinite {:?}", b), format!("{:?}", l), "panic".into()); } } }
+        // LU: permutation, |L| <= 1, PA = LU, identical slice / Matrix factors, determinant
+        let g: Vec<f64> = match case % 4 { 0 => rng.ivec(n * n, -4, 4), 1 => { let mut g = rng.ivec(n * n, -4, 4); for i in 0..n { g[i * n] = 0.; } g }
+            2 => { let mut g = vec![0.; n * n]; let mut p: Vec<usize> = (0..n).collect(); for i in (1..n).rev() { p.swap(i, rng.below(i + 1)); } for i in 0..n { g[i * n + p[i]] = 1.; } g }, _ => rng.ivec(n * n, -9, 9) };
+        let ginp = format!("n={} A={:?}", n, g);
+        let r1 = catch(|| lu(&g));
+        let r2 = catch(|| { let (m, p) = Matrix::new(g.clone(), n as i32, n as i32).lu(); (m.data.v, p) });
+        match (&r1, &r2) { (Some((l1, p1)), Some((l2, p2))) => if !same_vec(l1, l2) || p1 != p2 { fail(out, "lu / Matrix::lu", "C11.lu.identical", ginp.clone(), format!("{:?} {:?}", l2, p2), format!("{:?} {:?}", l1, p1)); }, _ => {} }
+        for (f, r) in [("lu", r1), ("Matrix::lu", r2)] {
+            match r { None => fail(out, f, "C11.lu.no_panic", ginp.clone(), "panic".into(), "factors".into()),
+                Some((lum, piv)) => {
+                    let mut seen = vec![false; n]; let mut okp = piv.len() == n; for &p in &piv { if p < 0 || p as usize >= n || seen[p as usize] { okp = false; break; } seen[p as usize] = true; }
+                    if !okp { fail(out, f, "C11.lu.permutation", ginp.clone(), format!("{:?}", piv), "a permutation".into()); continue; }
+                    let mut bad = false;
+                    for i in 0..n { for j in 0..i { let v = lum[i * n + j]; if !(v.abs() <= 1. + 1e-12) { fail(out, f, "C11.lu.l_bounded", format!("{} L[{},{}]", ginp, i, j), format!("{}", v), "|.| <= 1".into()); bad = true; } } }
+                    if bad { continue; }
+                    for i in 0..n { for j in 0..n { let mut s = 0.; for k in 0..=i.min(j) { let lik = if k == i { 1. } else { lum[i * n + k] }; s += lik * lum[k * n + j]; }
+                        let pa = g[piv[i] as usize * n + j]; if !close(s, pa, 1e-9) { fail(out, f, "C11.lu.reconstruct", format!("{} entry ({},{})", ginp, i, j), format!("{}", s), format!("{}", pa)); } } }
+                } }
+        }
+        let d = catch(|| Matrix::new(g.clone(), n as i32, n as i32).det());
+        let want = det_int(&g, n);
+        match d { None => fail(out, "Matrix::det", "C11.det.no_panic", ginp.clone(), "panic".into(), format!("{}", want)), Some(d) => if !close(d, want, 1e-9) { fail(out, "Matrix::det", "C11.det", ginp.clone(), format!("{}", d), format!("{}", want)) } }
+        // triangular solves
+        let lt: Vec<f64> = (0..n * n).map(|k| { let (i, j) = (k / n, k % n); if j > i { 0. } else if i == j { 1. + rng.below(4) as f64 } else { rng.int(-3, 3) } }).collect();
+        let xt = rng.ivec(n, -3, 3); let bl = matvec(&lt, &xt, n);
+        match catch(|| forward_substitution(&lt, &bl)) { None => fail(out, "forward_substitution", "C11.fwd", format!("L={:?}", lt), "panic".into(), format!("{:?}", xt)), Some(x) => if x.iter().zip(&xt).any(|(a, b)| !close(*a, *b, 1e-9)) { fail(out, "forward_substitution", "C11.fwd.triangular", format!("L={:?} b={:?}", lt, bl), format!("{:?}", x), format!("{:?}", xt)) } }
+        let ut = transpose(&lt, n); let bu = matvec(&ut, &xt, n);
+        match catch(|| backward_substitution(&ut, &bu)) { None => fail(out, "backward_substitution", "C11.bwd", format!("U={:?}", ut), "panic".into(), format!("{:?}", xt)), Some(x) => if x.iter().zip(&xt).any(|(a, b)| !close(*a, *b, 1e-9)) { fail(out, "backward_substitution", "C11.bwd.triangular", format!("U={:?} b={:?}", ut, bu), format!("{:?}", x), format!("{:?}", xt)) } }
+        if out.len() > 6 { return; }
+    }
+    for perm in [vec![1, 2, 3, 0], vec![1, 0, 3, 2], vec![2, 0, 1], vec![1, 2, 3, 4, 0], vec![0, 1, 2], vec![3, 2, 1, 0]] {
+        let n = perm.len(); let mut p = perm.clone(); let mut swaps = 0; for i in 0..n { while p[i] as usize != i { let j = p[i] as usize; p.swap(i, j); swaps += 1; } }
+        let want = if swaps % 2 == 0 { 1 } else { -1 };
+        if ipiv_parity(&perm) != want { fail(out, "ipiv_parity", "C11.parity", format!("{:?}", perm), format!("{}", ipiv_parity(&perm)), format!("{}", want)); }
+    }
+}
+
+fn c14(rng: &mut Rng, out: &mut Fails) {
+    for case in 0..60 {
+        let deg = rng.below(6);
+        let n = deg + 1 + rng.below(12);
+        let x: Vec<f64> = match case % 3 { 0 => (0..n).map(|i| -2. + 4. * i as f64 / (n as f64 - 1.).max(1.)).collect(), 1 => (0..n).map(|i| (i as f64 - n as f64 / 3.) * 0.5).collect(), _ => (0..n).map(|i| -1. + 3. * i as f64 / (n as f64 - 1.).max(1.)).collect() };
+        let c: Vec<f64> = rng.ivec(deg + 1, -3, 3);
+        let noise = if case % 2 == 0 { 0.0 } else { 0.5 };
+        let y: Vec<f64> = x.iter().map(|t| { let mut v = 0.; for (k, ck) in c.iter().enumerate() { v += ck * t.powi(k as i32); } v + noise * rng.range(-1., 1.) }).collect();
+        let inp = format!("degree {} x={:?} y={:?}", deg, x, y);
+        let r = catch(|| { let mut p = PolynomialRegressor::new(deg); p.fit(&x, &y); let pred = p.predict(&x); (p.coef.clone(), pred) });
+        match r { None => fail(out, "PolynomialRegressor::fit", "C14.no_panic", inp.clone(), "panic".into(), "fit".into()),
+            Some((coef, pred)) => {
+                for (t, pv) in x.iter().zip(&pred) { let mut v = 0.; for (k, ck) in coef.iter().enumerate() { v += ck * t.powi(k as i32); } if !close(*pv, v, 1e-9) { fail(out, "PolynomialRegressor::predict", "C14.predict.order", inp.clone(), format!("{}", pv), format!("{}", v)); break; } }
+                let scale = 1. + y.iter().fold(0.0f64, |m, v| m.max(v.abs()));
+                for k in 0..=deg { let m: f64 = x.iter().zip(&y).zip(&pred).map(|((t, yy), pp)| (yy - pp) * t.powi(k as i32)).sum(); let sx: f64 = x.iter().map(|t| t.powi(k as i32).abs()).sum::<f64>() + 1.;
+                    if m.abs() > 1e-6 * scale * sx { fail(out, "PolynomialRegressor::fit", "C14.fit.normal_equations", format!("{} power {}", inp, k), format!("residual moment {}", m), "0".into()); break; } }
+                if noise == 0. { for (a, b) in coef.iter().zip(&c) { if !close(*a, *b, 1e-6) { fail(out, "PolynomialRegressor::fit", "C14.fit.reproduce", inp.clone(), format!("{:?}", coef), format!("{:?}", c)); break; } } }
+            } }
+        if out.len() > 6 { return; }
+    }
+}
+
+fn c07(rng: &mut Rng, out: &mut Fails) {
+    for case in 0..60 {
+        let a = rng.range(-5., 5.); let b = match case % 5 { 0 => a, _ => rng.range(-5., 5.) };
+        let (c0, c1) = (rng.int(-3, 3), rng.int(-3, 3));
+        for n in [1usize, 2, 3, 4, 7, 16, 33] {
+            let g = trapz(|x| c0 + c1 * x, a, b, n);
+            let w = c0 * (b - a) + c1 * (b * b - a * a) / 2.;
+            if !close(g, w, 1e-11) { fail(out, "trapz", "C07.trapz.affine", format!("f(x)={}+{}x a={} b={} n={}", c0, c1, a, b, n), format!("{}", g), format!("{}", w)); }
+            let s = trapz(|x| c0 + c1 * x, b, a, n);
+            if !close(s, -g, 1e-11) { fail(out, "trapz", "C07.trapz.swap", format!("a={} b={} n={}", a, b, n), format!("{}", s), format!("{}", -g)); }
+        }
+        // Gauss-Legendre: exact to degree 9
+        for d in 0..=9 { let g = quad5(|x| x.powi(d), a, b); let w = (b.powi(d + 1) - a.powi(d + 1)) / (d as f64 + 1.); let sc = 1. + a.abs().max(b.abs()).powi(d + 1);
+            if (g - w).abs() > 1e-11 * sc { fail(out, "quad5", "C07.quad5.exact", format!("x^{} on [{}, {}]", d, a, b), format!("{}", g), format!("{}", w)); } }
+        if !close(quad5(|x| x * x + 1., b, a), -quad5(|x| x * x + 1., a, b), 1e-12) { fail(out, "quad5", "C07.quad5.swap", format!("[{}, {}]", a, b), "no sign change".into(), "sign change".into()); }
+        // Romberg with k levels exact for degree 2k-1 (eps = 0 and eps > 0)
+        for k in 2..=5usize { let d = (2 * k - 1) as i32; for eps in [0.0, 1e-9] {
+            let f = |x: f64| x.powi(d) - 2. * x.powi(d - 1) + x;
+            let g = romberg(f, a, b, eps, k + 1);
+            let prim = |x: f64| x.powi(d + 1) / (d as f64 + 1.) - 2. * x.powi(d) / d as f64 + x * x / 2.;
+            let w = prim(b) - prim(a); let sc = 1. + a.abs().max(b.abs()).powi(d + 1);
+            if (g - w).abs() > 1e-9 * sc { fail(out, "romberg", "C07.romberg.exact", format!("degree {} polynomial on [{}, {}] levels {} eps {}", d, a, b, k + 1, eps), format!("{}", g), format!("{}", w)); } } }
+    }
+    // romberg early-exit trap: integrand collinear at a, mid, b
+    let g = romberg(|x| x.powi(4) - x * x, -1., 1., 1e-6, 8); if !close(g, -4. / 15., 1e-6) { fail(out, "romberg", "C07.romberg.tolerance", "x^4 - x^2 on [-1,1], eps 1e-6, 8 levels".into(), format!("{}", g), format!("{}", -4. / 15.)); }
+    let g = romberg(|x: f64| x.sin().powi(2), 0., 2. * std::f64::consts::PI, 1e-8, 12); if !close(g, std::f64::consts::PI, 1e-6) { fail(out, "romberg", "C07.romberg.tolerance", "sin^2 on [0, 2pi]".into(), format!("{}", g), format!("{}", std::f64::consts::PI)); }
+    // sampled trapezoid = integral of the piecewise-linear interpolant
+    for case in 0..60 {
+        let n = 2 + rng.below(8);
+        let mut x = vec![rng.int(-3, 3)]; for _ in 1..n { let l = *x.last().unwrap(); x.push(l + 0.5 * (1 + rng.below(if case % 2 == 0 { 1 } else { 5 })) as f64); }
+        let y = rng.ivec(n, -5, 5);
+        let w: f64 = (1..n).map(|i| (y[i] + y[i - 1]) / 2. * (x[i] - x[i - 1])).sum();
+        let g = trapezoid(&y, Some(&x), None);
+        if !close(g, w, 1e-12) { fail(out, "trapezoid", "C07.trapezoid.sum", format!("y={:?} x={:?}", y, x), format!("{}", g), format!("{}", w)); }
+        let w2: f64 = (1..n).map(|i| (y[i] + y[i - 1]) / 2. * 0.25).sum();
+        if !close(trapezoid(&y, None, Some(0.25)), w2, 1e-12) { fail(out, "trapezoid", "C07.trapezoid.dx", format!("y={:?} dx=0.25", y), format!("{}", trapezoid(&y, None, Some(0.25))), format!("{}", w2)); }
+        if catch(|| trapezoid(&y, Some(&x[..n - 1]), None)).is_some() { fail(out, "trapezoid", "C07.trapezoid.valid", "len(x) != len(y)".into(), "returned".into(), "panic".into()); }
+    }
+}
+
+fn c06(rng: &mut Rng, out: &mut Fails) {
+    use compute::predict::{ExponentialFamily, GLM};
+    // family tables
+    let mu = [0.2, 0.5, 1.5, 3.0]; let y = [0.0, 1.0, 2.0, 4.0];
+    let rss: f64 = y.iter().zip(&mu).map(|(a, b)| (a - b) * (a - b)).sum();
+    if !close(ExponentialFamily::Gaussian.deviance(&y, &mu), rss, 1e-12) { fail(out, "ExponentialFamily::deviance", "C06.family.gaussian.deviance", format!("y={:?} mu={:?}", y, mu), format!("{}", ExponentialFamily::Gaussian.deviance(&y, &mu)), format!("{}", rss)); }
+    let pd: f64 = 2. * y.iter().zip(&mu).map(|(a, b)| (if *a == 0. { 0. } else { a * (a / b).ln() }) - (a - b)).sum::<f64>();
+    if !close(ExponentialFamily::Poisson.deviance(&y, &mu), pd, 1e-12) { fail(out, "ExponentialFamily::deviance", "C06.family.poisson.deviance", format!("y={:?} mu={:?}", y, mu), format!("{}", ExponentialFamily::Poisson.deviance(&y, &mu)), format!("{}", pd)); }
+    for (fam, name) in [(ExponentialFamily::Gaussian, "Gaussian"), (ExponentialFamily::Bernoulli, "Bernoulli"), (ExponentialFamily::Poisson, "Poisson"), (ExponentialFamily::QuasiPoisson, "QuasiPoisson"), (ExponentialFamily::Gamma, "Gamma"), (ExponentialFamily::Exponential, "Exponential")] {
+        let m = [0.2, 0.4, 0.7]; let v = fam.variance(&m).v;
+        let want: Vec<f64> = m.iter().map(|x| match name { "Gaussian" => 1., "Bernoulli" => x * (1. - x), "Poisson" | "QuasiPoisson" => *x, _ => x * x }).collect();
+        if v.iter().zip(&want).any(|(a, b)| !close(*a, *b, 1e-14)) { fail(out, "ExponentialFamily::variance", "C06.family.variance", format!("{} mu={:?}", name, m), format!("{:?}", v), format!("{:?}", want)); }
+        let disp = fam.has_dispersion(); let wd = matches!(name, "Gaussian" | "QuasiPoisson" | "Gamma");
+        if disp != wd { fail(out, "ExponentialFamily::has_dispersion", "C06.family.dispersion", name.into(), format!("{}", disp), format!("{}", wd)); }
+    }
+    // fits: score equations, ridge with intercept unpenalised, Gaussian = least squares, inference
+    for case in 0..24 {
+        let n = 30 + rng.below(60); let p = 2 + rng.below(2);
+        let mut x = vec![0.; n * p];
+        for i in 0..n { x[i * p] = 1.; for j in 1..p { x[i * p + j] = rng.range(-1., 1.); } }
+        let beta: Vec<f64> = (0..p).map(|_| rng.range(-1., 1.)).collect();
+        let fam_id = case % 3;
+        let fam = [ExponentialFamily::Gaussian, ExponentialFamily::Poisson, ExponentialFamily::Bernoulli][fam_id];
+        let offs: Option<Vec<f64>> = if fam_id == 1 && case % 2 == 1 { Some((0..n).map(|_| rng.range(-1.5, 0.)).collect()) } else { None };
+        let eta: Vec<f64> = (0..n).map(|i| (0..p).map(|j| x[i * p + j] * beta[j]).sum::<f64>() + offs.as_ref().map(|o| o[i]).unwrap_or(0.) + if fam_id == 1 { 1.5 } else { 0. }).collect();
+        let y: Vec<f64> = eta.iter().map(|e| match fam_id { 0 => e + rng.range(-0.3, 0.3), 1 => { let l = e.exp(); let mut k = 0.; let mut t = (-l).exp(); let mut s = t; let u = rng.unit(); while u > s && k < 200. { k += 1.; t *= l / k; s += t; } k }, _ => if rng.unit() < 1. / (1. + (-e).exp()) { 1. } else { 0. } }).collect();
+        let alpha = [0.0, 0.0, 0.1, 1.0][case % 4];
+        let inp = format!("family {:?} n={} p={} alpha={} offsets={} (case {})", fam, n, p, alpha, offs.is_some(), case);
+        let r = catch(|| { let mut g = GLM::new(fam); g.set_penalty(alpha).set_tolerance(1e-10); if let Some(o) = &offs { g.set_offset(o); }
+            let ok = g.fit(&x, &y, 200).is_ok(); (ok, g.coef().map(|c| c.to_vec()).ok(), g.deviance().ok(), g.coef_standard_error().ok(), g.dispersion().ok(), g.predict(&x).map(|v| v.v).ok()) });
+        if let Some((ok, Some(coef), dev, se, disp, pred)) = r {
+            if !ok { continue; }
+            let lin: Vec<f64> = (0..n).map(|i| (0..p).map(|j| x[i * p + j] * coef[j]).sum::<f64>() + offs.as_ref().map(|o| o[i]).unwrap_or(0.)).collect();
+            let mu: Vec<f64> = lin.iter().map(|e| match fam_id { 0 => *e, 1 => e.exp(), _ => 1. / (1. + (-e).exp()) }).collect();
+            // canonical links: score_j = sum x_ij (y_i - mu_i) - alpha * beta_j [j >= 1]
+            for j in 0..p { let s: f64 = (0..n).map(|i| x[i * p + j] * (y[i] - mu[i])).sum::<f64>() - if j >= 1 { alpha * coef[j] } else { 0. };
+                let sc: f64 = (0..n).map(|i| (x[i * p + j] * y[i]).abs()).sum::<f64>() + 1.;
+                if s.abs() > 1e-4 * sc { fail(out, "GLM::fit", "C06.score", format!("{} coefficient {}", inp, j), format!("score {} with fit reported Ok", s), "0 (penalised score equations)".into()); break; } }
+            if let Some(pr) = pred { if pr.iter().zip(&mu).any(|(a, b)| !close(*a, *b, 1e-9)) { fail(out, "GLM::predict", "C06.predict", inp.clone(), "predict != inv_link(X beta + offset)".into(), "equal".into()); } }
+            if let Some(d) = dev { let w: f64 = match fam_id { 0 => y.iter().zip(&mu).map(|(a, b)| (a - b) * (a - b)).sum(), 1 => 2. * y.iter().zip(&mu).map(|(a, b)| (if *a == 0. { 0. } else { a * (a / b).ln() }) - (a - b)).sum::<f64>(), _ => -2. * y.iter().zip(&mu).map(|(a, b)| a * b.ln() + (1. - a) * (1. - b).ln()).sum::<f64>() };
+                if !close(d, w, 1e-6) { fail(out, "GLM::deviance", "C06.deviance", inp.clone(), format!("{}", d), format!("{}", w)); } }
+            if let (Some(se), Some(disp)) = (se, disp) { if alpha == 0. {
+                // information = X^T W X with W = Var(mu) for canonical links (1 for Gaussian)
+                let w: Vec<f64> = mu.iter().map(|m| match fam_id { 0 => 1., 1 => *m, _ => m * (1. - m) }).collect();
+                let mut info = vec![0.; p * p]; for a in 0..p { for b in 0..p { info[a * p + b] = (0..n).map(|i| x[i * p + a] * w[i] * x[i * p + b]).sum(); } }
+                let inv = invert_matrix(&info);
+                let wd = if fam_id == 0 { y.iter().zip(&mu).map(|(a, b)| (a - b) * (a - b)).sum::<f64>() / (n - p) as f64 } else { 1. };
+                if !close(disp, wd, 1e-6) { fail(out, "GLM::dispersion", "C06.dispersion", inp.clone(), format!("{}", disp), format!("{}", wd)); }
+                for j in 0..p { let wse = (wd * inv[j * p + j]).sqrt(); if !close(se[j], wse, 1e-5) { fail(out, "GLM::coef_standard_error", "C06.standard_error", format!("{} coefficient {}", inp, j), format!("{}", se[j]), format!("{}", wse)); break; } }
+            } }
+        }
+        if out.len() > 6 { return; }
+    }
+}
+
+pub fn run(rng: &mut Rng, out: &mut Fails) {
+    let prop = std::env::args().nth(1).unwrap_or_default();
+    match prop.as_str() { "C01" => c01(rng, out), "C11" => c11(rng, out), "C14" => c14(rng, out), "C07" => c07(rng, out), "C06" => c06(rng, out), _ => {} }
+}
